@@ -43,13 +43,28 @@ def run(tier):
                 ch = sargen.row_chunks(rng, r, 4)
                 rng.shuffle(ch)
                 plans[i] = ch
-            case = {'shapes': shapes, 'pixel_type': pt, 'row_limit': row_limit, 'target': target, 'with_sicd': with_sicd, 'plans': plans}
-            seen.add((pt, nim, row_limit is not None, target, with_sicd))
-            metas = [sargen.small_sidd(r, c, pt) for r, c in shapes]
+            # SIDD version of the structures (the example document is version 2; 1 and 3 come from sarpy's own structure creation),
+            # and the write history: chunks of the images interleaved, non-forced flushes in between
+            version = rng.choice([None, None, 1, 2, 3])
+            order = None
+            hist = rng.choice(['per-image', 'per-image', 'interleaved', 'flushes'])
+            if hist != 'per-image':
+                order = [(i, a, b) for i in plans for a, b in plans[i]]
+                rng.shuffle(order)
+                if hist == 'flushes':
+                    k = 0
+                    while k < len(order):
+                        k += rng.randint(1, 3)
+                        order.insert(min(k, len(order)), 'flush')
+                        k += 1
+            case = {'shapes': shapes, 'pixel_type': pt, 'row_limit': row_limit, 'target': target, 'with_sicd': with_sicd, 'plans': plans,
+                    'version': version, 'order': order}
+            seen.add((pt, nim, row_limit is not None, target, with_sicd, version, hist))
+            metas = [sargen.small_sidd(r, c, pt, version=version) for r, c in shapes]
             datas = [sargen.sidd_pixels(rng, r, c, pt) for r, c in shapes]
             sicd = sargen.small_sicd(20, 10) if with_sicd else None
             try:
-                buf, det = sargen.write_sidd(metas, datas, target, tmpdir, row_limit=row_limit, sicd_meta=sicd, chunk_plans=plans)
+                buf, det = sargen.write_sidd(metas, datas, target, tmpdir, row_limit=row_limit, sicd_meta=sicd, chunk_plans=plans, order=order)
             except Exception as e:
                 fails.append({'kind': 'write', 'msg': f'SIDD write refused: {type(e).__name__}: {e}', 'case': case})
                 continue
@@ -123,11 +138,11 @@ def run(tier):
         broken.append('model driver does not build/run: ' + str(e)[:300])
     chk.coverage.update({
         'evaluations': stats.get('files', 0) + stats.get('model_cases', 0), 'distinct_nontrivial': len(seen),
-        'rule': 'SIDD 2 files with 1-4 images of differing sizes x MONO8I/MONO16I/RGB24I x row limits x per-image random row-chunk orders x path/BytesIO x optional embedded SICD; '
+        'rule': 'SIDD files (structures of version 1, 2, 3) with 1-4 images of differing sizes x MONO8I/MONO16I/RGB24I x row limits x per-image random row-chunk orders x chunks written per image / interleaved across images / with non-forced flushes in between x path/BytesIO x optional embedded SICD; '
                 'distinct = (pixel type, image count, segmented?, target, embedded SICD?)',
         'samples': [j[0] for j in jobs[:2]], 'stats': stats, 'traces_validated_against_impl': stats.get('model_cases', 0),
         'disagreements_checked': len(disagreements)})
-    chk.assumptions += ['only SIDD version 2 structures (tests/data/example.sidd.xml resized) are generated; versions 1 and 3 share the writer/reader code paths but are not exercised here',
+    chk.assumptions += ['SIDD structures: tests/data/example.sidd.xml (version 2) resized, and structures of version 1 / 2 / 3 made by sarpy\'s own create_sidd_structure_v* from a synthetic SICD',
                         'pixel routing and layout rest on C02/C03 theorems; regrouping model tied by comparing IID1 element numbers/groups of real files']
     unknown = [f for f in fails if not (f.get('key') and chk.known(f['key']))]
     for f in unknown[:5]:
